@@ -1,17 +1,39 @@
 CFG = {'assumptions': ['the initial offset o is a multiple of 64 (the property statement); theorems are over unbounded Z: '
                  "Go's int64 index arithmetic (idx - Offset, Offset += 64) is assumed not to overflow, i.e. |o|, |idx| "
                  'far below 2^63 (the harness stays within 2^40)',
-                 'probes are inside the domain of Get/Get1: 0 <= j < Offset + 64*len(Words)'],
+                 'probes are inside the domain of Get/Get1: 0 <= j < Offset + 64*len(Words)',
+                 'literal histories: Offset a multiple of 64, Words are uint64, at most 2^16 words (protocol bound '
+                 'only; the theorems have no bound)',
+                 'words reads: j >= Offset and j - Offset < 2^31 (the int32 index of the bitmap functions)',
+                 'int64: the last word [2^63-64, 2^63) of the range is never stored (completing it wraps Offset: '
+                 'theorem C15_int64_top_word_refuted, docs/selftest-C15.md); elsewhere the int64 model equals the '
+                 'unbounded one (C15_int64_agrees)'],
  'files': ['bitmap/tailbitmap.go'],
- 'go': {'bitmap.TailBitmap': 'bitmap.NewTailBitmap + (*TailBitmap).Set/Compact/Get/Get1 (one whole history per case)'},
+ 'go': {'bitmap.TailBitmap': 'bitmap.NewTailBitmap + (*TailBitmap).Set/Compact/Get/Get1 (one whole history per case)',
+        'bitmap.TailBitmap/int64': 'bitmap.NewTailBitmap + Set/Compact/Get/Get1 with offsets and indices near MinInt64 '
+                                   '/ MaxInt64, against the int64 model [widened]',
+        'bitmap.TailBitmap/literal': '&bitmap.TailBitmap{Offset, Words} struct literal + Set/Compact/Get/Get1 (one '
+                                     'whole history per case) [widened]',
+        'bitmap.TailBitmap/words': 'history on NewTailBitmap, then TailBitmap.Get/Get1 vs '
+                                   'bitmap.Get/Get1/SafeGet/SafeGet1 on the exported Words [widened]'},
  'rule': 'one case = one whole history on a fresh NewTailBitmap(o); exported Offset and Words and the result are '
          'observed after EVERY call. Cases = all histories of <= 3 (quick) / 4 (thorough) calls over an 11-call '
-         'alphabet around the first words for o in {0,64,640} with edge-position probe sweeps + structured random '
-         'histories of up to 300 calls (scattered, front-to-back with skipped bits revisited, back-to-front, whole '
-         'words in random order, dense first word; sets below the offset, repeated sets, explicit Compact, Get/Get1 '
-         'probes after every mutation at offset/word/end boundaries) + in-order fills of 1030 words crossing the '
-         '1024-word reclaim threshold (both tiers) + back-to-front fills (40 words quick, 1100 words thorough). '
-         'A history is non-trivial when Offset advanced at least once and both a stored 1 and a stored 0 were '
-         'probed; shape key = (max stored words, #advances, max compaction jump, sets below offset, repeated sets, '
-         'explicit Compact, bulk fill, probe classes hit, threshold crossed)',
+         'alphabet around the first words for o in {0,64,-64} (thorough: also -128, 640; negative offsets and indices '
+         'are in the domain) with edge-position probe sweeps + structured random histories of up to 300 calls '
+         '(scattered, front-to-back with skipped bits revisited, back-to-front, whole words in random order, dense '
+         'first word; sets below the offset, repeated sets, explicit Compact, Get/Get1 probes after every mutation at '
+         'offset/word/end boundaries) + in-order fills of 1030 words crossing the 1024-word reclaim threshold (both '
+         'tiers) + back-to-front fills (40 words quick, 1100 words thorough). + far sets 1023..1025 words ahead of '
+         'Offset at every word-edge bit + long tails (bits 1025/2100/5000 words ahead) at the moment the reclaim '
+         'threshold is crossed, twice. WIDENED: (literal) all struct literals of 0..3 words over a 5-word alphabet x '
+         'every call (thorough: every pair of calls) with full edge sweeps, random literals with leading all-ones '
+         'words, reclaim from a literal (reclaimed = 0) at Offsets 1023/1024/1025/5000 words incl. a 1300-word tail; '
+         '(words) random histories then 6 reads of positions from Offset to past the end. A history is non-trivial '
+         'when Offset advanced at least once and both a stored 1 and a stored 0 were probed; shape key = (max stored '
+         'words, #advances, max compaction jump, sets below offset, repeated sets, explicit Compact, bulk fill, probe '
+         'classes hit, threshold crossed); literal: key lit/(words, leading all-ones words, advanced, Compact, bulk, '
+         'below, probe classes) when a stored 1 and a stored 0 were probed; words: non-trivial when a stored 1 and a '
+         'stored 0 were read; int64: random and deterministic histories 1..6 words below the last word of the int64 '
+         'range and at MinInt64 (sets below Offset down to MinInt64, probes at MinInt64/-1/0/MaxInt64-64, fills up to '
+         'the last word), key i64/(top|bottom, words, Compact, bulk)',
  'shrink_s': 40}
